@@ -16,7 +16,7 @@ Tie to code : the real validators are run in subprocesses — pure Python (AUTOB
               4-tuples with the RFC 3629 grammar), second reference = CPython's strict decoder. The executable Lean models
               (`utf8.validate.py`, `utf8.validate.nvx`) are compared call by call with the implementations they mirror.
 
-Self-test (scratch copy, VERIF_REPO; 2026-09-23): 11 mutations detected with concrete replays, 2 harmless rewrites silent — table in SELFTEST at the end of this file.
+Self-test (scratch copy, VERIF_REPO; 2026-09-23): 13 mutations detected with concrete replays, 2 harmless rewrites silent — table in SELFTEST at the end of this file.
 """
 import json
 import os
@@ -35,7 +35,7 @@ TRANSLATORS = [tr_utf8.translate]
 TRUSTED = [
     "Lean 4.33 kernel; axioms of every theorem audited to be within {propext, Classical.choice, Quot.sound}",
     "translate/utf8.py (ast.literal_eval of UTF8VALIDATOR_DFA / UTF8_ACCEPT / UTF8_REJECT; tokenizer + recursive-descent "
-    "parser for the C table initialiser and the DFA_TRANSITION if-chain); self-checked each run: generated Python table == "
+    "parser for the C table initialiser and the DFA_TRANSITION if-chain; the while-conditions of the two C loops); self-checked each run: generated Python table == "
     "live tuple cell by cell, generated C table/macro == compiled C on all 8 x 256 live transitions",
     "hand-written Lean models of Utf8Validator.validate (pure Python) and of _nvx_utf8vld_validate_table/_unrolled + the cffi "
     "wrapper's result mapping (Abverif/Model/Utf8.lean); tied to the code only by the differential run",
@@ -55,8 +55,8 @@ MANIFEST_ENTRY = {
             "section 4 grammar and is alive exactly while some extension is well-formed (induction, all byte strings); the "
             "validate() model gives, for every chunking including empty chunks, the same carried state, verdict, "
             "endsOnCodePoint and total index as one call, reports the first offending byte, and keeps rejecting after a "
-            "reject. NVX = pure Python is proved for call sequences with no call after a reject (nvx_eq_py_partial); the full "
-            "statement is refuted for today's C code by a concrete sequence (finding F1) and proved for the repaired behaviour. "
+            "reject. NVX = pure Python is proved at full strength (nvx_eq_py: every call sequence, every implementation id, all "
+            "four tuple elements), resting on the C table, the C macro and the C loop conditions as re-read from /repo on this run. "
             "The models are tied to the code by running pure Python and the rebuilt NVX C (wrapper with every implementation "
             "selection, internal table and unrolled entry points) on the complete transition relation, all byte strings up to "
             "length 2 (quick) / 3 (thorough) plus 4-byte families, and generated mixtures under random chunkings, judged by "
@@ -64,7 +64,8 @@ MANIFEST_ENTRY = {
     "note": "Trusted: Lean kernel, the translators (self-checked against the live objects each run), the hand-written validate "
             "models (differential tie only), gcc/cffi. The SSE2/SSE4.1 functions in _utf8validator.c are not reachable from "
             "nvx_utf8vld_validate (every implementation id except 2 dispatches to the table loop) and are not covered. "
-            "Known finding F1 (NVX forgets a rejection on the next call) is reproduced on every run.",
+            "Finding F1 (NVX forgot a rejection on the next call) was repaired in /repo c2c187d5; a regression is reported as a "
+            "violation with key nvx-forgets-reject-on-next-call and also breaks loops_run_in_reject / nvx_eq_py.",
 }
 W = Path(__file__).parent / "workers"
 
@@ -291,7 +292,7 @@ def shrink(ctx, scratch, mode, impl, internal, chunks, reason):
     cur = list(chunks)
     budget = 60 if ctx.tier == "quick" else 600
     for _ in range(14):
-        if time.time() - ctx.t0 > budget:
+        if time.time() - getattr(ctx, "c09_run_t0", ctx.t0) > budget:   # measured from the start of run(): a Lean rebuild does not eat it
             break
         cands = []
         for i in range(len(cur)):
@@ -348,6 +349,8 @@ def run(ctx):
                 "with empty chunks, stopping at or continuing after the first reject. Every implementation path (py; nvx "
                 "wrapper default + impl 1..4; internal table/unrolled) is judged by the Lean grammar (utf8.judge / utf8.enum spec); "
                 "non-trivial = distinct (chunk list) with at least one multi-byte lead, fault or chunk boundary")
+    import time
+    ctx.c09_run_t0 = time.time()
     scratch = Path(tempfile.mkdtemp(prefix="abverif-c09-"))
     try:
         internal = True
@@ -534,7 +537,6 @@ def _run(ctx, res, scratch, internal):
         hs = " ".join(H(c) for c in seqs[i])
         mlines += [f"utf8.validate.py {hs}", f"utf8.validate.nvx 1 {hs}", f"utf8.validate.nvx 2 {hs}"]
     mout = drv_parallel(ctx, mlines, 12)
-    f1_fixed = 0
     nbreak = 0
     for i in range(len(seqs)):
         mp, m1, m2 = (x.split(" | ")[0].replace(" ", ",") for x in mout[3 * i:3 * i + 3])
@@ -545,16 +547,12 @@ def _run(ctx, res, scratch, internal):
             want = mp if impl == "py" else (m2 if impl in ("nvx.impl2", "nvx.unrolled") else m1)
             res.traces_validated += 1
             if got != want:
-                if impl != "py" and got == mp:
-                    f1_fixed += 1       # the C no longer forgets a reject: it follows the repaired model (= pure Python)
-                    continue
                 nbreak += 1
                 if nbreak <= 5:
                     res.correspondence_breaks.append({"stream": f"Lean model vs {impl}", "chunks": [H(c) for c in seqs[i]],
                                                       "model": want, "implementation": got})
-    if f1_fixed:
-        res.notes.append(f"{f1_fixed} NVX runs answered calls after a reject like the pure-Python validator: the source no "
-                         "longer shows F1; it follows validateNvxFixed (theorem nvxFixed_eq_py), update Model.validateNvxWith")
+    if nbreak:
+        res.count("model_mismatches", nbreak)
     res.count("model_lines", len(mlines))
 
     # CPython's strict decoder as a second reference for the Spec itself (sequence-level observables)
@@ -593,7 +591,8 @@ def _run(ctx, res, scratch, internal):
     return res
 
 
-# Self-test outcomes: `python3 tools_selftest_c09.py` (scratch copy of /repo/src, VERIF_REPO; quick tier; 2026-09-23).
+# Self-test outcomes: `python3 tools_selftest_c09.py` (scratch copy of /repo/src, VERIF_REPO; quick tier; 2026-09-23, re-run after
+# /repo c2c187d5 repaired F1: 13 mutations detected with concrete replays, 2 harmless rewrites silent).
 SELFTEST = """
 mutation (single edit in the scratch copy)                      exit  proof_problems                 concrete replay (key: impl chunks)
 py table cell [256+5*16+7] 1->2 (surrogates)                      1   tablePy_eq_rfc fails           py-accepts-ill-formed: py [eda0]; py-offender-total-index-wrong: py [eda000]
@@ -607,8 +606,13 @@ C table loop: total_index += i + 1 on reject                      1   -         
 C loops: `vld->state = state` dropped at the end of a call        1   -                              nvx-accepts-ill-formed: nvx.impl1 [c2, 00]; nvx-rejects-well-formed-prefix [c2, 80]
 py UTF8_REJECT = 2                                                1   consts_eq_rfc fails            py-accepts-ill-formed: py [80]; py-rejects-well-formed-prefix: py [c2]
 websocket/__init__: AUTOBAHN_USE_NVX=0 no longer disables NVX     1   -                              selection-ignores-AUTOBAHN_USE_NVX; py-forgets-reject-on-next-call: py [80, 80]
-harmless: py table literals re-based, `state << 4` -> `* 16`      0   -                              (silent; only the known finding F1)
-harmless: C macro branches swapped, `==||==||==` -> range         0   -                              (silent; only the known finding F1)
+C table loop: `&& state != 1` re-added (F1 regression)            1   loops_run_in_reject fails      nvx-forgets-reject-on-next-call: nvx.impl1 [80, 80]
+                                                                      (so nvx_eq_py cannot build)
+C unrolled loop: `&& state != 1` re-added (F1 regression)         1   loops_run_in_reject fails      nvx-forgets-reject-on-next-call: nvx.impl2 [80, 80]
+harmless: py table literals re-based, `state << 4` -> `* 16`      0   -                              (silent)
+harmless: C macro branches swapped, `==||==||==` -> range         0   -                              (silent)
+(on the selection mutation the "pure" worker ends up on the INSTALLED /venv `_nvx_utf8validator` .so, which on 2026-09-23 was
+ still the pre-c2c187d5 build and shows F1; the check itself always rebuilds the C from the source tree)
 (every table/constant mutation also shows the differing cells in the evidence notes, e.g.
  "utf8validator.py UTF8VALIDATOR_DFA: 32 cell(s) differ from the RFC automaton, e.g. state 5 octet 0xa0: source says 2, RFC says 1")
 """
